@@ -78,8 +78,10 @@ func init() {
 		Quick: []H{
 			{Pkg: "scipipe", Fn: "VxH03", Params: p("two", 0, "N", 45, "crashes", 1), MustReach: []string{"converged", "refused"}, MustAssert: []string{"C03.restart-completes", "C03.leftovers-refused", "C03.final-output-kept", "C03.converges-to-uninterrupted-result"}},
 			{Pkg: "scipipe", Fn: "VxH03", Params: p("two", 1, "N", 45, "crashes", 1), MustReach: []string{"converged", "refused", "known"}, MustAssert: []string{"C03.restart-completes", "C03.leftovers-refused", "C03.final-output-kept"}},
+			{Pkg: "components", Fn: "VxH03split", Params: p("N", 40), MustReach: []string{"reran"}, MustAssert: []string{"C03.split.restart-completes"}},
 		},
 		Thorough: []H{
+			{Pkg: "components", Fn: "VxH03split", Params: p("N", 40), MustReach: []string{"reran"}, MustAssert: []string{"C03.split.restart-completes"}},
 			{Pkg: "scipipe", Fn: "VxH03", Params: p("two", 0, "N", 45, "crashes", 2), MustReach: []string{"converged", "refused"}, MustAssert: []string{"C03.restart-completes", "C03.leftovers-refused", "C03.final-output-kept", "C03.converges-to-uninterrupted-result"}},
 			{Pkg: "scipipe", Fn: "VxH03", Params: p("two", 1, "N", 45, "crashes", 2), MustReach: []string{"converged", "refused", "known"}, MustAssert: []string{"C03.restart-completes", "C03.leftovers-refused", "C03.final-output-kept"}},
 		},
